@@ -5,14 +5,24 @@ HERE = os.path.dirname(os.path.dirname(os.path.abspath(__file__)))
 CLAIMED = {
  "C01": ("must-pass-through + sibling lints (ast), AXIS axis-role abstract interpretation, FLOW provenance", "4 C01"),
  "C02": ("AXIS axis-role abstract interpretation vs one eligibility rule; block templates; FLOW provenance", "4 C02"),
- "C03": ("block templates + rational normal form (NORM); AXIS containment/partition; errstate lint", "4 C03"),
+ "C03": ("block templates + rational normal form (NORM); AXIS containment/partition; errstate and zero-base lints", "4 C03"),
+ "C04": ("symbolic subtotal algebra; flag / NaN-class tables; DECTAB over abstract index-set classes (index truthiness)", "4 C04"),
+ "C05": ("FLOW non-interference; coordinate-system (payload/display) typing; pairing tables; duplicate-free / rendering typestate lints", "4 C05"),
+ "C06": ("decision tables, must-pass-through of the slice expression, argument/parameter position agreement (call-graph lint)", "4 C06"),
+ "C07": ("ordering-key lattice; DECTAB anchor table; single normalisation point; rendering index-space agreement", "4 C07"),
+ "C08": ("keyword->measure tables vs public properties up to monotone maps; value-position tables; fallback and exception-type lints", "4 C08"),
  "C09": ("FLOW provenance; AXIS support of pruning bases; symbolic comparison of hidden-set / subtotal rule", "4 C09"),
+ "C10": ("mirror comparison under the transposition rewrite T (AXIS normal forms + canonicalised expressions)", "4 C10"),
  "C11": ("rational normal form (NORM) identity of the three-term variance; block templates", "4 C11"),
  "C12": ("radical normal form (NORM) of the residual; guard classification; block argument pairing", "4 C12"),
  "C13": ("NORM formulas + symbolic swap; block/reference tables; must-pass-through of the display translation; AXIS overlap bases", "4 C13"),
+ "C14": ("NORM formulas of the scale statistics; orientation pairing; statistic-truthiness lint (median declined)", "4 C14"),
  "C15": ("block-index rule on share-of-sum denominators (reduction-block rule)", "4 C15"),
  "C16": ("AXIS on the four baseline variants; NORM index formula; FLOW independence from display transforms", "4 C16"),
  "C17": ("NORM scaling formulas; sibling selection tables; DECTAB over abstract JSON shapes of the filter statistics", "4 C17"),
+ "C18": ("EFFECTS write inventory with freshness classification; retraction (DECTAB); descriptor / raw-array / taint lints", "4 C18"),
+ "C19": ("DECTAB decision list of the id translation over spelling classes; must-pass-through of every reference slot", "4 C19"),
+ "C20": ("guard table; wiring of smoothed variants; dependence-footprint lint (arithmetic declined)", "4 C20"),
 }
 REASON_PENDING = "static check for this property is under construction in this session (design in DESIGN.md section 4); not claimed until it runs clean"
 def main():
